@@ -450,10 +450,17 @@ def switch_edges_local(b, bb):
     return {int(v): tg for v, tg in t[2]}, t[3]
 
 
+def r8(ctx, facts):
+    """shared with C16 (the generated code's side): the ordered-flavor type_check generated by #[derive(DeserializeValue)] checks the CQL type of every UDT field
+    it matches to a Rust field - a mismatched pair must be refused at any nesting depth, also through derived structs"""
+    from .c16 import r13 as c16_r13
+    c16_r13(ctx, ctx.facts("family"))
+
+
 def check(ctx):
     facts = inline_view(ctx.facts("default"))
     config = ctx.alias.get("default", "default")   # the thorough tier re-runs this module over `full` and `unstable`
-    for fn in (lambda c, f: r1_r2(c, f, config), r3, r4, r5, r6, r7):
+    for fn in (lambda c, f: r1_r2(c, f, config), r3, r4, r5, r6, r7, r8):
         try:
             fn(ctx, facts)
         except AnchorLost as ex:
